@@ -42,17 +42,27 @@ import re
 class Capture:
     """context manager: records (script, globals) of every evaluable.compile"""
 
-    def __init__(self):
+    def __init__(self, serial=False):
         self.scripts = []
+        self.serial = serial    # run the (parallel) script single-process: no forks
 
     def __enter__(self):
         from nutils import _util
         self._util = _util
         self._orig = _util.function
 
-        def function(script, globals):
+        def function(script, globals={}):
             self.scripts.append((script, globals))
-            return self._orig(script, globals)
+            func = self._orig(script, globals)
+            if not self.serial:
+                return func
+            from nutils import parallel
+
+            def compiled(a):
+                with parallel.maxprocs(1):
+                    return func(a)
+            compiled.__nutils_hash__ = func.__nutils_hash__
+            return compiled
         _util.function = function
         return self
 
@@ -333,7 +343,7 @@ def _analyse_loop(bname, loop, kind, after):
     lremap = {l: i + 1 for i, l in enumerate(usedlocks)}
     for st in steps:
         st['locks'] = [lremap[l] for l in st['locks']]
-    return dict(branch=bname, loop=loop.name, arrays=names, shared=shared, nlocks=len(usedlocks), scratch=sorted(arrays[a - 1] for a in scratch),
+    return dict(branch=bname, loop=loop.name, alllocks=locks, arrays=names, shared=shared, nlocks=len(usedlocks), scratch=sorted(arrays[a - 1] for a in scratch),
                 locknames=[locks[l - 1] for l in usedlocks], body=steps, detail=detail, leaks=leaks)
 
 
